@@ -46,7 +46,11 @@ func at(ls orb.LineString, s float64) orb.Point {
 }
 
 // param returns the smallest arc-length position >= from at which p lies on ls (within tol), or -1
-func param(ls orb.LineString, p orb.Point, from float64) float64 {
+func param(ls orb.LineString, p orb.Point, from float64) float64 { return paramIn(ls, p, from, nil) }
+
+// paramIn: with a metric, a segment the metric measures as zero holds no sample strictly between its ends (its
+// vertices may be distinct: the antimeridian pair under geo.Distance).
+func paramIn(ls orb.LineString, p orb.Point, from float64, metric orb.DistanceFunc) float64 {
 	acc := 0.0
 	for i := 1; i < len(ls); i++ {
 		a, b := ls[i-1], ls[i]
@@ -54,6 +58,10 @@ func param(ls orb.LineString, p orb.Point, from float64) float64 {
 		if d > 0 {
 			t := ((p[0]-a[0])*(b[0]-a[0]) + (p[1]-a[1])*(b[1]-a[1])) / (d * d)
 			t = math.Max(0, math.Min(1, t))
+			if metric != nil && metric(a, b) == 0 && p != a && p != b {
+				acc += d
+				continue
+			}
 			if math.Hypot(a[0]+t*(b[0]-a[0])-p[0], a[1]+t*(b[1]-a[1])-p[1]) <= 1e-9 && acc+t*d >= from-1e-9 {
 				return acc + t*d
 			}
@@ -143,7 +151,7 @@ func main() {
 			}
 			from := 0.0
 			for k, p := range out {
-				s := param(ls, p, from)
+				s := paramIn(ls, p, from, df.f)
 				if s < 0 {
 					c.Failf("on-line-order", "point %d = %v is not on the line at or after arc position %v: %v | %s", k, p, from, out, desc(call))
 					return
@@ -329,6 +337,19 @@ func main() {
 	// curved lines: many segments of lengths that are not representable, so that sums taken in different orders
 	// (total length vs running distance) differ in the last place
 	curveN := []int{2, 3, 4, 5, 7, 13, 100}
+	// a segment the metric measures as exactly zero between two different vertices: the antimeridian written as the
+	// vertex pair (180,y),(-180,y) under geo.Distance (the planar metrics see a 360-long segment there)
+	anti := []orb.LineString{
+		{{170, 0}, {180, 0}, {-180, 0}, {-170, 0}},
+		{{170, 45}, {180, 45}, {-180, 45}, {-170, 45}, {-170, 50}},
+		{{-175, 10}, {-180, 10}, {180, 10}, {175, 10}},
+		{{180, 0}, {-180, 0}, {-170, 0}},
+		{{170, 0}, {180, 0}, {-180, 0}},
+	}
+	r.Explore("antimeridian-pair", fmt.Sprintf("3 distance functions x %d lines that cross the antimeridian through the vertex pair (180,y),(-180,y) x N in 2..9 x the interval set", len(anti)), mc.Opts{MaxDev: -1}, func(c *mc.Ctx) {
+		dfi := c.Choose(len(dfs))
+		runLine(c, dfi, anti[c.Choose(len(anti))].Clone(), []int{2, 3, 4, 5, 6, 7, 8, 9})
+	})
 	r.Explore("curved-families", fmt.Sprintf("3 distance functions x 3 curves (parabola (i, i^2/10), a small longitude/latitude parabola, a 0.1-step diagonal) x 2..40 vertices x N in %v x the interval set", curveN), mc.Opts{MaxDev: -1, Split: 2}, func(c *mc.Ctx) {
 		dfi := c.Choose(len(dfs))
 		f := c.Choose(3)
